@@ -54,7 +54,7 @@ REQUIRED_THEOREMS = ["Clikit.Props.C16." + n for n in (
     "default_chars_ok", "run_with_message",
     "throttle_current_config", "throttle_spacing_current_config", "min_interval_setter",
     "max_always_draws_current_config", "quiet_nothing_current_config", "frames_truthful_current_config",
-    "bar_width_current_config", "setter_silent", "run_is_runC", "deciders_without_setters",
+    "bar_width_current_config", "bar_hyp_decides", "bar_width_current_config_dec", "setter_silent", "run_is_runC", "deciders_without_setters",
     "displayed_line_count_recorded", "set_format_no_residue", "set_format_section_clears_standing_frame")]
 RULE = ("exhaustive small scope: every call sequence up to length 4 over a pool of 8 (quick) / 11 (thorough) public "
         "calls with clock advances (start, advance(1) after 0 / 1/64 / 1/4 s [/ 2 s], advance(3) after 1/16 s, "
@@ -396,6 +396,9 @@ def run_impl(case):
             clock.t += op["dt"]
             del log[:]
             err = None
+            # the hypotheses of Props.C16.bar_width_current_config, read off the real bar as it is when THIS call is
+            # made (setters of earlier calls applied): compared with the model's barHypB on the configuration in force
+            bar_hyp = _bar_hyp_of(pb)
             try:
                 name = op["op"]
                 if name == "start":
@@ -435,7 +438,7 @@ def run_impl(case):
             except Exception as e:  # the class name is the observable
                 err = type(e).__name__
             events.append({"w": list(log), "t": clock.t, "progress": pb.get_progress(),
-                           "max": pb.get_max_steps(), "err": err})
+                           "max": pb.get_max_steps(), "err": err, "bar_hyp": bar_hyp})
         hyp["no_err"] = all(e["err"] is None for e in events)
         return {"events": events, "setup_writes": setup_writes, "hyp": hyp}
     finally:
@@ -444,6 +447,13 @@ def run_impl(case):
 
 def _clean(s):
     return "\n" not in s and "\r" not in s
+
+
+def _bar_hyp_of(pb):
+    """[the three bar characters are single characters, the bar width is a binary64 integer] for the bar as it is now"""
+    chars = [pb.get_empty_bar_character(), pb.get_progress_character()]
+    own = pb.bar_char
+    return [all(len(c) == 1 for c in chars) and (own is None or len(own) == 1), 0 <= pb.get_bar_width() < 2 ** 52]
 
 
 def _hyp_of(pb, case):
@@ -478,7 +488,8 @@ def model_obs(case, answers):
 
 
 def impl_view(case, obs):
-    return {"events": [{"w": e["w"], "progress": e["progress"], "max": e["max"], "err": e["err"]}
+    return {"events": [{"w": e["w"], "progress": e["progress"], "max": e["max"], "err": e["err"],
+                        "bar_hyp": e["bar_hyp"]}
                        for e in obs["events"]], "hyp": obs["hyp"]}
 
 
